@@ -138,6 +138,10 @@ func searchIndex(p *binary.BinaryProtocol, idx int, elementWireType proto.WireTy
 			}
 			cnt++
 		}
+		// NOTICE: the end of the list is the position of element len(list), which doesn't exist
+		if p.Read >= start+length {
+			return p.Read, errNotFound
+		}
 		result = p.Read
 	} else {
 		// normal Type : [tag][(length)][value][tag][(length)][value][tag][(length)][value]....
